@@ -307,7 +307,7 @@ func synthOptsRandom(rng *rand.Rand) synthOpts {
 		o.nstreams = 2
 	}
 	if rng.Intn(8) == 0 {
-		o.inject = 1 + rng.Intn(14)
+		o.inject = 1 + rng.Intn(15)
 	}
 	return o
 }
@@ -474,6 +474,29 @@ func synthBlock(w *BitW, rng *rand.Rand, o synthOpts, inject int, info *synthInf
 	}
 	alpha := len(dict) + 2
 	syms := mtfRle2(tt, dict)
+	if inject == 15 {
+		// an overlong run number: 0..3 low RUNA/RUNB digits, then 19..45 more digits
+		// (libbzip2 refuses a run number once its weight reaches 2^21; a 32-bit counter
+		// wraps from digit 32 on)
+		var run []int
+		for k := rng.Intn(4); k > 0; k-- {
+			run = append(run, rng.Intn(2))
+		}
+		hi := 19 + rng.Intn(27)
+		for k := 0; k < hi; k++ {
+			if rng.Intn(4) == 0 {
+				run = append(run, 1)
+			} else {
+				run = append(run, 0)
+			}
+		}
+		at := 0
+		if len(syms) > 0 {
+			at = rng.Intn(len(syms) + 1)
+		}
+		syms = append(syms[:at:at], append(run, syms[at:]...)...)
+		info.expectOK = false
+	}
 	syms = append(syms, alpha-1) // end of block
 
 	// tables
@@ -687,7 +710,7 @@ func synthStream(rng *rand.Rand, o synthOpts) ([]byte, synthInfo) {
 		combined := uint32(0)
 		for b := 0; b < o.nblocks; b++ {
 			inj := 0
-			if o.inject >= 1 && o.inject <= 10 && b == o.nblocks-1 && s == o.nstreams-1 {
+			if (o.inject >= 1 && o.inject <= 10 || o.inject == 15) && b == o.nblocks-1 && s == o.nstreams-1 {
 				inj = o.inject
 			}
 			var bi synthInfo
